@@ -345,6 +345,19 @@ func TestVerifC03ParrotMatchesSpec(t *testing.T) {
 		raw := uc.HandshakeState.Hello.Raw
 		vf03Compare(st, rt, p, name, raw, shuf[p.Name], false)
 		st.NonTrivial(p.Name + "|" + vf03WireOrder(raw))
+		if rapid.IntRange(0, 2).Draw(rt, "rebuild_with_other_sni") == 0 && name != "" {
+			// the same connection builds its hello again (as Handshake does) after SetSNI with a name of another length:
+			// padded parrots keep their total length while every offset behind server_name moves
+			_, name2 := vf03GenServerName(rt)
+			if name2 != "" {
+				uc.SetSNI(name2)
+				if err := uc.BuildHandshakeState(); err != nil {
+					st.Violation(rt, "%s sni=%q then SetSNI(%q): BuildHandshakeState: %v", p.Name, name, name2, err)
+				}
+				vf03Compare(st, rt, p, name2, uc.HandshakeState.Hello.Raw, shuf[p.Name], false)
+				st.Class("rebuilt-after-SetSNI")
+			}
+		}
 		st.Sample(map[string]any{"parrot": p.Name, "sni": name, "len": len(raw), "order": vf03WireOrder(raw)})
 	})
 }
